@@ -28,6 +28,7 @@ fn alphabet_a() -> Vec<Op> {
         a(K::SwapArena),
         a(K::Burn(1)),
         a(K::Burn(70)),
+        a(K::Reserve(100)),
         a(K::Consume(1)),
         a(K::Consume(255)),
         a(K::Advance(1)),
@@ -95,6 +96,7 @@ fn alphabet_c(full: bool) -> Vec<Op> {
         a(K::FlushCache),
         a(K::SwapArena),
         a(K::Burn(1)),
+        a(K::Reserve(100)),
         a(K::Consume(1)),
         a(K::Advance(1)),
         a(K::Advance(66)),
@@ -128,6 +130,26 @@ fn alphabet_c(full: bool) -> Vec<Op> {
     v
 }
 
+/// Alphabet E (C05, C10): anchored memory.  Several AnchoredSlices read from the same chunk and
+/// held across arena turn-overs, pushed late, with partial consumption in between; reads that
+/// fill the current chunk exactly (burn(70) then a 70-byte read).
+fn alphabet_e() -> Vec<Op> {
+    vec![
+        a(K::HoldRead(300)),
+        a(K::HoldRead(70)),
+        a(K::HeldPush),
+        a(K::HeldDrop),
+        a(K::PushAnchored(300)),
+        a(K::PushAnchored(70)),
+        a(K::PushCopy(3)),
+        a(K::Push(65)),
+        a(K::FlushCache),
+        a(K::Burn(70)),
+        a(K::Consume(1)),
+        a(K::Advance(66)),
+    ]
+}
+
 /// C20 prefix alphabet (producer/consumer subset).
 fn alphabet_d_prefix() -> Vec<Op> {
     vec![
@@ -140,6 +162,9 @@ fn alphabet_d_prefix() -> Vec<Op> {
         a(K::Consume(1)),
         a(K::Advance(1)),
         a(K::Burn(1)),
+        a(K::Reserve(100)),
+        a(K::ReadNothing(50)),
+        a(K::FlushCache),
     ]
 }
 
@@ -194,6 +219,7 @@ impl Explorer<'_> {
         let mut meta = (0u64, 0u64, false);
         let alphabet = &self.alphabet;
         let start = self.start;
+        set_breadcrumb(format!("start: {}\nhistory: {}\n", start.name(), render(&full)).as_bytes());
         let body = || -> Result<(), String> {
             let mut ex = Exec::new(start);
             for (i, op) in full.iter().enumerate() {
@@ -401,6 +427,7 @@ fn run(ctx: &Ctx) -> Report {
         "C05" => {
             explore(ctx, &mut rep, "C05", "C05 alphabet C", alphabet_c(false), Start::Fresh, vec![], t.pick(5, 6));
             explore(ctx, &mut rep, "C05", "C05 alphabet C (full)", alphabet_c(true), Start::Fresh, vec![], t.pick(4, 5));
+            explore(ctx, &mut rep, "C05", "C05 alphabet E (anchored memory)", alphabet_e(), Start::Fresh, vec![], t.pick(7, 8));
             for (name, seed) in seeds() {
                 explore(ctx, &mut rep, "C05", &format!("C05 alphabet C after seed {}", name), alphabet_c(false), Start::Fresh, seed, t.pick(4, 5));
             }
@@ -408,6 +435,7 @@ fn run(ctx: &Ctx) -> Report {
         "C10" => {
             explore(ctx, &mut rep, "C10", "C10 leak clause, alphabet C", alphabet_c(false), Start::Fresh, vec![], t.pick(5, 6));
             explore(ctx, &mut rep, "C10", "C10 leak clause, alphabet C", alphabet_c(false), Start::FromSlices, vec![], t.pick(4, 5));
+            explore(ctx, &mut rep, "C10", "C10 leak clause, alphabet E (anchored memory)", alphabet_e(), Start::Fresh, vec![], t.pick(6, 7));
             for (name, seed) in seeds() {
                 explore(ctx, &mut rep, "C10", &format!("C10 leak clause after seed {}", name), alphabet_c(false), Start::Fresh, seed, t.pick(4, 5));
             }
@@ -449,5 +477,12 @@ fn main() {
                 "caller buffers are static, so borrowed slices can never dangle in the harness".into(),
             ]
         },
+        decode_breadcrumb: Some(|ctx, bytes| {
+            let text = String::from_utf8_lossy(bytes).to_string();
+            if text.trim().is_empty() {
+                return None;
+            }
+            Some((format!("{}:abort:{}", ctx.prop, text.trim().replace(['\n', ' '], ";")), text))
+        }),
     });
 }
